@@ -3,7 +3,7 @@ CONSTANTS
   BinOpsG = {"or", "==", "..", "+", "*", "^"}
   UnOpsG = {"-", "not", "#"}
   LeafKindsG = {"call", "vararg", "num"}
-  ContextsG = {"local", "local2", "return", "arg", "argfirst", "if", "tpos", "prefix"}
+  ContextsG = {"local", "local2", "return", "arg", "argfirst", "if", "tpos", "prefix", "prefixm"}
   MaxDev = 2
   MaxPar = 2
   Shapes = {"bb_l", "bb_r", "bu_l", "bu_r", "ub", "uu", "b", "u", "l"}
